@@ -339,6 +339,9 @@ def run_check(prop, tier, seed):
         inconclusive.append("coverage floor %s: observed %d < required %d" % (k, got, need))
     if evaluations == 0:
         inconclusive.append("no evaluations were performed")
+    if hist.get("harness_panics", 0) > 0:
+        inconclusive.append("%d case(s) ended in a panic of the harness itself (not of the code under test): %s"
+                            % (hist["harness_panics"], "; ".join(n for n in notes if n.startswith("harness panic"))[:600]))
 
     wall = time.time() - t0
     coverage = {
